@@ -2575,9 +2575,11 @@ class Region(_IRNode):
                     )
                 )
         # Handle cases where results may be created after their first use when walking
-        # in lexicographic order.
+        # in lexicographic order. Only the new blocks are walked: `dest` may already
+        # contain operations before the insertion point.
         if clone_operands:
-            for old, new in zip(self.walk(), dest.walk()):
+            new_ops = (op for new_block in new_blocks for op in new_block.walk())
+            for old, new in zip(self.walk(), new_ops):
                 new.operands = tuple(
                     value_mapper.get(operand, operand) for operand in old.operands
                 )
